@@ -311,18 +311,220 @@ def gen_db(rng, top, tree, hazard=False):
         entries.append(e)
         intents.append({"kind": kind, "target": T, "base": base, "incs": [(f, s, u) for f, s, u in incs], "argv": argv})
 
-    def templ(x):
-        if isinstance(x, str):
-            return x.replace(top, TOPVAR)
-        if isinstance(x, list):
-            return [templ(y) for y in x]
-        if isinstance(x, tuple):
-            return [templ(y) for y in x]
-        if isinstance(x, dict):
-            return {k: templ(v) for k, v in x.items()}
-        return x
+    return templ(entries, top), templ(intents, top)
 
-    return templ(entries), templ(intents)
+
+def templ(x, top):
+    if isinstance(x, str):
+        return x.replace(top, TOPVAR)
+    if isinstance(x, (list, tuple)):
+        return [templ(y, top) for y in x]
+    if isinstance(x, dict):
+        return {k: templ(v, top) for k, v in x.items()}
+    return x
+
+
+# --------------------------------------------------------------------------------------------
+# stream "shared": build-system style databases -- the same spelled strings in many directories
+# --------------------------------------------------------------------------------------------
+MOD_INSIDE = ["a", "b", "sub/c", "build/debug", "build/release", "src", "lib/deep"]
+MOD_OUTSIDE = ["obj", "out/mod", "other"]
+MOD_SOURCES = ["main.c", "version.c", "util/x.cpp", "gen/auto.cc", "x.cpp"]
+MOD_INCDIRS = ["inc", "include", "util", "../shared/inc", "."]
+
+
+def make_module_tree(rng):
+    """A tree in which one relative layout (sources, include directories, headers) is instantiated below
+    several `module' directories -- inside the root, the root itself, outside the root -- each file being
+    present in a module only with some probability.  Hence one and the same relative spelling (`main.c`,
+    `inc`, `../shared/inc`) names a different existing object, or nothing, depending on the directory in
+    which it is read.  Every file carries a unique marker; no symbolic links (those are the hazard stream)."""
+    rootname = rng.choice(["proj", "proj", "my proj", "p.c", "a/b/proj"])
+    mods = rng.sample(MOD_INSIDE, rng.randint(2, 4))
+    if rng.random() < 0.6:
+        mods.append("")  # the root itself is a module
+    mdirs = [f"{rootname}/{m}" if m else rootname for m in mods] + rng.sample(MOD_OUTSIDE, rng.choice([0, 1, 1, 2]))
+    rng.shuffle(mdirs)
+    sources_t = rng.sample(MOD_SOURCES, rng.randint(2, 4))
+    incdirs_t = rng.sample(MOD_INCDIRS, rng.randint(1, 3))
+    n = [0]
+
+    def mark():
+        n[0] += 1
+        return f"MARK_{n[0]}"
+
+    def norm(p):
+        return "/".join(my_norm("/" + p))
+
+    dirs, files, sources = [rootname] + list(mdirs), {}, []
+    for md in mdirs:
+        for idir in incdirs_t:
+            d = norm(f"{md}/{idir}")
+            if rng.random() < 0.85:
+                dirs.append(d)
+                if rng.random() < 0.5 and f"{d}/ver.h" not in files:
+                    files[f"{d}/ver.h"] = f"int {mark()};\n"
+                if rng.random() < 0.75 and f"{d}/cfg.h" not in files:
+                    tail = rng.choice(["", '#include "ver.h"\n', "#include <ver.h>\n", ""])
+                    files[f"{d}/cfg.h"] = f"#ifndef G_{n[0]}\n#define G_{n[0]}\nint {mark()};\n#endif\n" + tail
+        for sf in sources_t:
+            if rng.random() < 0.6:
+                f = f"{md}/{sf}"
+                dirs.append(posixpath.dirname(f))
+                inc = rng.choice(['#include "cfg.h"\n', "#include <cfg.h>\n", '#include "inc/cfg.h"\n', "#include <ver.h>\n", ""])
+                files[f] = f"int {mark()};\nint v;\n" + inc
+                sources.append(f)
+    if not sources:
+        f = f"{mdirs[0]}/{sources_t[0]}"
+        dirs.append(posixpath.dirname(f))
+        files[f] = f"int {mark()};\n#include \"cfg.h\"\n"
+        sources.append(f)
+    others = []
+    for md in mdirs:
+        for name in ("main.o", "prog", "lib.a"):
+            if rng.random() < 0.3:
+                files[f"{md}/{name}"] = f"int {mark()};\n"
+                others.append(f"{md}/{name}")
+    return {"root": rootname, "dirs": list(dict.fromkeys(dirs)), "files": files, "links": [], "sources": sources,
+            "others": others, "incdirs": [], "modules": mdirs, "sources_t": sources_t, "incdirs_t": incdirs_t}
+
+
+def light_noise(rng, s):
+    """redundant segments that are harmless in EVERY directory in which the spelling will be read"""
+    r = rng.random()
+    if r < 0.2 and not s.startswith("/"):
+        s = "./" + s
+    elif r < 0.3 and "/" in s.strip("/"):
+        i = s.index("/", 1)
+        s = s[:i] + rng.choice(["//", "/./"]) + s[i + 1:]
+    return s
+
+
+def gen_db_shared(rng, top, tree):
+    """A database as a build system writes it: a few `rules' (a command line spelled ONCE: compiler, options,
+    relative -I values, relative or absolute file) each applied in several module directories, so that entries
+    share their `file` string and/or their whole argv and differ only in `directory` (spelled per entry:
+    absent for the root, absolute, relative to the root, with redundant segments).  Some entries are repeated
+    verbatim, some get a per-entry option, two rules may name the same file; rules for object files, link
+    commands and empty commands are mixed in.  Whether an entry is `good' or `missing' is read off the tree:
+    the same spelling exists in some modules and not in others.  Order: shuffled, module-major or rule-major."""
+    PROTECT[:] = [top]
+    FS[:] = [VFS(top, tree)]
+    root_abs = os.path.join(top, tree["root"])
+    mods = [os.path.join(top, m) for m in tree["modules"]]
+    rules = []
+    for _ in range(rng.randint(1, 3)):
+        kind = rng.choices(["source", "object", "link", "empty"], [80, 7, 6, 7])[0]
+        if kind == "source":
+            if rng.random() < 0.85:
+                fsp = light_noise(rng, rng.choice(tree["sources_t"] + ["gone.c"] * (rng.random() < 0.15)))
+            else:
+                fsp = os.path.join(top, rng.choice(tree["sources"]))  # one absolute file compiled from many directories
+        elif kind == "empty":
+            fsp = rng.choice(tree["sources_t"])
+        else:
+            fsp = rng.choice(["main.o", "prog", "lib.a", "util/x.o"])
+        incs = []
+        for idir in rng.sample(tree["incdirs_t"] + ["no/such/inc"], rng.choice([0, 1, 1, 2, 2])):
+            form = rng.choice(["-I_", "-I", "-isystem"])
+            if rng.random() < 0.12:
+                sp = "/" + "/".join(my_norm(rng.choice(mods) + "/" + idir))  # an absolute one among the relative ones
+            else:
+                sp = light_noise(rng, idir) + ("/" if rng.random() < 0.15 else "")
+            incs.append((form, sp))
+        cc = rng.choice(COMPILERS)
+        argv = [cc]
+        if cc in ("icpx", "icx") and rng.random() < 0.7:
+            argv.append("-fsycl")
+        if rng.random() < 0.5:
+            argv.append(rng.choice(["-DX=1", "-DNAME", "-DS=a b", "-O2", "-g"]))
+        for form, sp in incs:
+            argv += ["-I" + sp] if form == "-I_" else [form, sp]
+        if kind == "link":
+            argv = [rng.choice(["ld", "gcc", "ar"]), "-o", "prog", fsp]
+        else:
+            argv += ["-c", fsp]
+            if rng.random() < 0.4:
+                argv += ["-o", "obj/x.o"]
+        rules.append({"kind": kind, "file": fsp, "argv": argv, "form": rng.choice(["arguments", "command"])})
+    if len(rules) > 1 and rules[0]["kind"] == "source" and rng.random() < 0.25:
+        # the same file compiled twice with different options
+        rules[1] = dict(rules[0], argv=[rules[0]["argv"][0], "-DTWICE"] + rules[0]["argv"][1:])
+    cells = []  # (rule index, module index, entry, intent)
+    for ri, rule in enumerate(rules):
+        k = len(mods) if rng.random() < 0.5 else rng.randint(2, len(mods))
+        for mi in sorted(rng.sample(range(len(mods)), min(k, len(mods)))):
+            D = mods[mi]
+            r = rng.random()
+            if D == root_abs and r < 0.6:
+                dsp = None
+            elif r < 0.35:
+                dsp = noise(rng, D, "/") if rng.random() < 0.3 else D
+            else:
+                dsp = os.path.relpath(D, root_abs)
+                if rng.random() < 0.35:
+                    dsp = noise(rng, dsp, root_abs)
+                if rng.random() < 0.15:
+                    dsp += "/"
+            argv = list(rule["argv"])
+            if rule["kind"] != "link" and rng.random() < 0.15:
+                argv = argv + ["-o", os.path.basename(D) + ".o"]  # nearly the same command line
+            T = rule["file"] if rule["file"].startswith("/") else "/" + "/".join(my_norm(D + "/" + rule["file"]))
+            if rule["kind"] == "source":
+                kind = "good" if T in FS[0].files else "missing"
+            else:
+                kind = {"object": "object", "link": "link", "empty": "empty"}[rule["kind"]]
+            e = {"file": rule["file"]}
+            if dsp is not None:
+                e["directory"] = dsp
+            if kind == "empty":
+                if rule["form"] == "arguments":
+                    e["arguments"] = []
+                else:
+                    e["command"] = ""
+            elif rule["form"] == "arguments":
+                e["arguments"] = argv
+            else:
+                e["command"] = shlex.join(argv)
+            intent = {"kind": kind, "target": T, "base": D, "incs": [], "argv": argv}
+            cells.append((ri, mi, e, intent))
+            if rng.random() < 0.1:
+                cells.append((ri, mi, dict(e), dict(intent)))  # repeated verbatim
+    order = rng.choice(["shuffle", "shuffle", "module-major", "rule-major", "reverse"])
+    if order == "shuffle":
+        rng.shuffle(cells)
+    elif order == "module-major":
+        cells.sort(key=lambda c: (c[1], c[0]))
+    elif order == "reverse":
+        cells.reverse()
+    entries = [c[2] for c in cells]
+    intents = [c[3] for c in cells]
+    return templ(entries, top), templ(intents, top), order
+
+
+def shared_features(case, top):
+    """Which cross-entry situations the database contains (measured on the concrete entries, for the
+    distribution buckets): kept entries with identical argv read in different directories; an entry for a
+    missing file followed by a kept entry with the same `file` string; the same for any skipped entry."""
+    feats = set()
+    seen_argv, seen_missing, seen_file = {}, set(), {}
+    for e, i in zip(case["entries"], case["intents"]):
+        a = tuple(i["argv"])
+        if i["kind"] == "good":
+            rel_inc = any(not x.startswith(("/", TOPVAR)) for x in own_incs(list(a)))
+            if a in seen_argv and i["base"] not in seen_argv[a]:
+                feats.add("same-argv-other-dir" + ("+rel-I" if rel_inc else ""))
+            seen_argv.setdefault(a, set()).add(i["base"])
+            if e["file"] in seen_missing:
+                feats.add("missing-then-present-same-file-string")
+            if e["file"] in seen_file and i["target"] not in seen_file[e["file"]]:
+                feats.add("same-file-string-other-target")
+            if e["file"] in seen_file and i["target"] in seen_file[e["file"]]:
+                feats.add("same-target-again")
+            seen_file.setdefault(e["file"], set()).add(i["target"])
+        elif i["kind"] == "missing":
+            seen_missing.add(e["file"])
+    return feats
 
 
 def subst(x, top):
@@ -552,7 +754,10 @@ def check_db(ctx, drv, case, use_gcc=True, count=True):
         eff_cwd = cwd or os.getcwd()
         kinds = "+".join(sorted(set(i["kind"] for i in intents))) if intents else "?"
         if count:
-            ctx.count(key="db:" + kinds)
+            ctx.count(key=("shared-db:" if case.get("stream") == "shared" else "db:") + kinds)
+            if case.get("stream") == "shared":
+                for ft in sorted(shared_features(case, top)) or ["none"]:
+                    ctx.dist["shared-feature:" + ft] += 1
         hazard = any(entry_hazard(root_abs, e) for e in entries)
 
         # ---------------- model and spec (Lean)
@@ -673,6 +878,33 @@ def check_db(ctx, drv, case, use_gcc=True, count=True):
             with open(dbpath, "w") as fh:
                 json.dump(entries, fh)
 
+        # ---------------- entries are independent of each other (on the implementation): what an entry contributes
+        # (configurations, warning) is what the database consisting of that entry alone yields -- the statement
+        # speaks of "every entry" by itself, so nothing may be carried from one entry to another
+        if "error" not in got and 2 <= len(entries) <= 40:
+            alone_e, alone_m, trouble = [], [], None
+            for e in entries:
+                with open(dbpath, "w") as fh:
+                    json.dump([e], fh)
+                g1 = impl_load(dbpath, rootarg, cwd)
+                if "error" in g1:
+                    trouble = f"the database consisting of the entry {e} alone aborts with {g1['error']}"
+                    break
+                alone_e += [{k: v for k, v in x.items()} for x in g1["entries"]]
+                alone_m += g1["missing"]
+            if count:
+                ctx.count(key="independence")
+            if trouble:
+                ctx.violation(trouble + ", the whole database does not", case)
+            elif canon(alone_e) != canon(got["entries"]) or alone_m != got["missing"]:
+                report["independence"] = {"one_by_one": alone_e, "one_by_one_missing": alone_m}
+                ctx.classify(case, "the result for the whole database is not the concatenation of the results for its entries taken "
+                                   f"one by one: whole {[(x['file'], x['include_paths']) for x in got['entries']][:4]} warnings "
+                                   f"{got['missing'][:3]}; one by one {[(x['file'], x['include_paths']) for x in alone_e][:4]} "
+                                   f"warnings {alone_m[:3]}", [])
+            with open(dbpath, "w") as fh:
+                json.dump(entries, fh)
+
         # ---------------- gcc + end-to-end attribution
         if use_gcc and "error" not in got and per_cmd:
             union_expected = set()
@@ -741,15 +973,21 @@ def _same(a, b):
         return False
 
 
-def gen_case(rng, hazard=False):
+def gen_case(rng, hazard=False, shared=False):
     seed = rng.randrange(1 << 30)
     import random
 
     r = random.Random(seed)
-    tree = make_tree(r)
-    entries, intents = gen_db(r, "/tmp/cbiverif_generator_top", tree, hazard)
-    case = {"seed": seed, "tree": tree, "entries": entries, "intents": intents,
-            "dbplace": r.choice([TOPVAR, f"{TOPVAR}/{tree['root']}", f"{TOPVAR}/{tree['root']}/build", f"{TOPVAR}/out"])}
+    if shared:
+        tree = make_module_tree(r)
+        entries, intents, order = gen_db_shared(r, "/tmp/cbiverif_generator_top", tree)
+        case = {"seed": seed, "stream": "shared", "order": order, "tree": tree, "entries": entries, "intents": intents,
+                "dbplace": r.choice([TOPVAR, f"{TOPVAR}/{tree['root']}", f"{TOPVAR}/{r.choice(tree['modules'])}"])}
+    else:
+        tree = make_tree(r)
+        entries, intents = gen_db(r, "/tmp/cbiverif_generator_top", tree, hazard)
+        case = {"seed": seed, "tree": tree, "entries": entries, "intents": intents,
+                "dbplace": r.choice([TOPVAR, f"{TOPVAR}/{tree['root']}", f"{TOPVAR}/{tree['root']}/build", f"{TOPVAR}/out"])}
     # how the root is handed over
     rr = r.random()
     root_abs = f"{TOPVAR}/{tree['root']}"
@@ -888,7 +1126,13 @@ def run(ctx, drv, scale=1.0):
                 "with `.`, empty and `X/../X` segments, trailing slashes, `//` prefix; `arguments` and `command` forms; "
                 "compilers incl. multi-pass ones; mixed with entries for missing files, object files, link commands, "
                 "non-source names and empty commands; root handed over absolute, with trailing slash, or relative to the "
-                "process cwd. Non-trivial = distinct (directory spelling, file spelling) pairs of databases with at least one "
+                "process cwd. Stream `shared' (buckets shared-db:*, shared-feature:*): build-system style databases over "
+                "trees in which one relative layout is instantiated in 2-7 module directories (inside the root, the root, "
+                "outside) with each file present only in some of them; 1-3 command lines, each spelled once (relative -I "
+                "values, relative or absolute file) and applied in several directories, so entries share the `file` string "
+                "and/or the whole argv and differ in `directory`; verbatim repeats, nearly-equal command lines, the same file "
+                "compiled twice; shuffled / module-major / rule-major order. Every database of 2-40 entries is also loaded "
+                "entry by entry (bucket independence) and the concatenation compared. Non-trivial = distinct (directory spelling, file spelling) pairs of databases with at least one "
                 "kept entry, plus distinct gcc-confirmed entries. Primitives: every string over {/ . a c} up to length "
                 "6 (quick) / 7 (thorough) against posixpath/pathlib, every string over {space a ' \" \\ tab} up to length 5/6 "
                 "against shlex.")
@@ -938,7 +1182,22 @@ def run(ctx, drv, scale=1.0):
         case = gen_case(ctx.rng, hazard=True)
         case["stream"] = "dotdot-hazard"
         check_db(ctx, drv, case, use_gcc=True)
+    # separate stream: build-system style databases (the same command line / the same `file` string in many
+    # directories, repeated entries, missing in one directory and present in another)
+    n3 = ctx.n(45, 400)
+    done3 = 0
+    for i in range(n3):
+        if i >= n3 // 3 and ctx.elapsed() > limit:
+            ctx.notes.append(f"time guard: {i} of {n3} shared-spelling databases explored")
+            break
+        case = gen_case(ctx.rng, shared=True)
+        rep = check_db(ctx, drv, case, use_gcc=True)
+        done3 += 1
+        if i < 2:
+            ctx.sample({"stream": "shared", "entries": case["entries"], "root": case["root_spelling"],
+                        "implementation": rep.get("implementation")}, cap=8)
     ctx.extra["databases"] = done
+    ctx.extra["shared_spelling_databases"] = done3
 
 
 def search(ctx, drv):
